@@ -220,6 +220,30 @@ def table_shape(k):
     return item, tuple("[]" if isinstance(x, tuple) else x for x in path)
 
 
+def params_by_type(body):
+    """{type tail: [parameter names]} of a writer (self excluded)"""
+    out = {}
+    for i in range(2, body.argc + 1):
+        ty = body.locals[i]["ty"]
+        out.setdefault(ty.rsplit("::", 1)[-1].rstrip(">"), []).append(body.local_name(i))
+    return out
+
+
+def array_len_of_field(f, adt_name, field):
+    """length of the array a state field holds (written as a number or as the NUM constant of the indexing enum)"""
+    for fl in f.adts[adt_name]["variants"][0]["fields"]:
+        if fl["name"] == field:
+            import re
+            m = re.search(r";\s*([\w:]+)\]$", fl["ty"])
+            if not m:
+                return None
+            n = m.group(1)
+            if n.isdigit():
+                return int(n)
+            return {"Piece::NUM": 6, "Color::NUM": 2, "Square::NUM": 64, "File::NUM": 8, "Rank::NUM": 8}.get(n.split("::", 1)[-1] if n.count("::") > 1 else n)
+    return None
+
+
 def expected_keys(ctx, f, body, p, ch, root, features, w, final=None):
     if final is None:
         final = p.store[("P", "self")]
@@ -234,6 +258,19 @@ def expected_keys(ctx, f, body, p, ch, root, features, w, final=None):
             ctx.fail("%s:placement-square" % sw, "%s toggles different squares in its two bitboard arrays" % w, loc(body))
             return None
         sq = sa[1]
+        # what the call means to its callers: toggle (piece, colour) at the square handed in -- the piece parameter indexes
+        # the per-piece boards, the colour parameter the per-colour boards, the square parameter is the bit
+        pt = params_by_type(body)
+        ity_ = body.j.get("impl_self")
+        okm = len(pt.get("Piece", [])) == 1 and len(pt.get("Color", [])) == 1 and len(pt.get("Square", [])) == 1
+        if okm:
+            pi, ci = enum_idx(("param", pt["Piece"][0])), enum_idx(("param", pt["Color"][0]))
+            by_idx = {ia: fa, ib: fb}
+            okm = set(by_idx) == {pi, ci} and array_len_of_field(f, ity_, by_idx[pi]) == 6 and array_len_of_field(f, ity_, by_idx[ci]) == 2 \
+                and sq == ("param", pt["Square"][0])
+        ctx.check(okm, "%s:meaning" % sw,
+                  "%s does not toggle its square parameter in the per-piece board of its piece parameter and the per-colour board of its colour parameter" % w,
+                  loc(body), sample={"writer": sw, "means": "pieces[piece] ^= bb(square); colors[color] ^= bb(square)"})
         feat = features.setdefault("piece", {})
         # find the key used: a key whose indices are exactly {ia, ib, idx(sq)}
         want_idx = sorted([ia, ib, enum_idx(sq)], key=repr)
@@ -270,6 +307,22 @@ def expected_keys(ctx, f, body, p, ch, root, features, w, final=None):
         # optional feature: whole field, or one cell/sub-field of it
         tgt, oldv, newv = option_update(new, old)
         if tgt is not None:
+            # what the call means to its callers: the value parameter goes into the slot its other parameters name
+            pt = params_by_type(body)
+            okm = newv[0] == "param"
+            if len(tgt) == 2:
+                # (colour cell, wing sub-field): the colour parameter picks the cell; the bool parameter picks the wing
+                # named `short` when true and `long` when false (the convention every caller is checked against)
+                wing = None
+                for c_ in p.conds:
+                    if c_[0][0] == "param" and c_[0][1] in pt.get("bool", []) and isinstance(c_[1], int):
+                        wing = "short" if c_[1] else "long"
+                okm = okm and len(pt.get("Color", [])) == 1 and tgt[0] == enum_idx(("param", pt["Color"][0])) and wing is not None and tgt[1] == wing
+            elif len(tgt) == 1:
+                okm = okm and len(pt.get("Color", [])) == 1 and tgt[0] == enum_idx(("param", pt["Color"][0]))
+            ctx.check(okm, "%s:%s:meaning" % (sw, fld),
+                      "%s does not store its value parameter in the slot named by its colour / wing parameters (slot %s)" % (w, [sym.show(x) if isinstance(x, tuple) else x for x in tgt]),
+                      loc(body), sample={"writer": sw, "slot": [sym.show(x) if isinstance(x, tuple) else x for x in tgt]})
             so, sn = opt_state(p, oldv), opt_state(p, newv)
             if so is None or sn is None:
                 ctx.fail("%s:%s:undecided" % (sw, fld),
